@@ -32,7 +32,12 @@ class LinkSpec:
         self.sessions = 0
         self.n_tx = 0
         self.n_rx = 0
+        self.sess_tx = 0              # per-session counters (fault positions refer to these)
+        self.sess_rx = 0
         self.n_reply = 0
+        self.carry = []
+        self.dispatching = None       # thread that received a packet and has not asked for the next one yet
+        self.on_dispatch_start = None
         self.faults_fired = 0
         self.links = []
         self.tx_after_close = []
@@ -89,6 +94,8 @@ class SimLinkDriver(CRTPDriver):
         spec.sessions += 1
         spec.links.append(self)
         self.session = spec.sessions
+        spec.sess_tx = 0
+        spec.sess_rx = 0
         self.needs_resending = spec.needs_resending
         self.link_error_callback = link_error_callback
         self.closed = False
@@ -124,7 +131,8 @@ class SimLinkDriver(CRTPDriver):
             spec.tx_after_close.append((self._now(), self.session, header, data))
             return
         spec.n_tx += 1
-        n = spec.n_tx
+        spec.sess_tx += 1
+        n = spec.sess_tx
         deliver = True
         if spec.tx_filter is not None:
             deliver = bool(spec.tx_filter(spec, n, header, data))
@@ -147,6 +155,8 @@ class SimLinkDriver(CRTPDriver):
         s = ds.CUR
         start = self._now()
         deadline = None if wait < 0 else start + wait
+        if self.spec is not None and self.spec.dispatching is threading.current_thread():
+            self.spec.dispatching = None
         while True:
             if self.closed:
                 if wait > 0 and s is not None:
@@ -159,9 +169,13 @@ class SimLinkDriver(CRTPDriver):
                 _, _, h, d = heapq.heappop(self._inflight)
                 spec = self.spec
                 spec.n_rx += 1
+                spec.sess_rx += 1
                 spec.rx.append((now, self.session, h, d))
                 pk = CRTPPacket(h, list(d))
-                if spec.fail_after_rx is not None and spec.n_rx == spec.fail_after_rx:
+                spec.dispatching = threading.current_thread()
+                if spec.on_dispatch_start is not None:
+                    spec.on_dispatch_start()
+                if spec.fail_after_rx is not None and spec.sess_rx == spec.fail_after_rx:
                     self._fault()
                 return pk
             t = deadline
